@@ -42,6 +42,32 @@ pub enum ParseUnicodeError {
     },
 }
 
+/// Parses a complete bytes literal token: `b`/`B`, an optional `r`/`R`, and a single- or
+/// triple-quoted body. Raw bodies denote their UTF-8 bytes verbatim.
+pub fn parse_bytes_literal(s: &str) -> Result<Vec<u8>, ParseSequenceError> {
+    let rest = s
+        .strip_prefix(['b', 'B'])
+        .ok_or(ParseSequenceError::MissingOpeningQuote)?;
+    let (raw, body) = match split_triple_quoted(rest) {
+        Some(parts) => parts,
+        None => {
+            let (raw, quoted) = match rest.strip_prefix(['r', 'R']) {
+                Some(quoted) => (true, quoted),
+                None => (false, rest),
+            };
+            if quoted.len() < 2 || !quoted.starts_with(['"', '\'']) {
+                return Err(ParseSequenceError::MissingOpeningQuote);
+            }
+            (raw, &quoted[1..quoted.len() - 1])
+        }
+    };
+    if raw {
+        Ok(body.as_bytes().to_vec())
+    } else {
+        parse_bytes(body)
+    }
+}
+
 pub fn parse_bytes(s: &str) -> Result<Vec<u8>, ParseSequenceError> {
     let mut chars = s.chars().enumerate();
     let mut res: Vec<u8> = Vec::with_capacity(s.len());
